@@ -14,24 +14,38 @@ PROP = 'C14'
 HARNESS = os.path.join(core.VERIF, 'tools', 'harness')
 
 MANIFEST = dict(
-    technique='Coq proof (loop invariant with fuel, bit-level rewriting, arithmetic over N/Z) about algorithm-faithful hand models of '
-              'the rendered support code; extracted-model vs. compiled-header correspondence on exhaustive small-parameter sweeps',
-    text='Theorems in coq/theories/Properties/C14.v, each for EVERY offset, length, buffer, declared size and value (no bound; the C '
-         'contract\'s preconditions as boolean guards). C target (both target_endianness renderings): nunavutCopyBits copies exactly '
-         'the addressed bits, leaves every other bit untouched and makes no out-of-range access (memmove path and bit loop); '
+    technique='Coq proof (loop invariants with fuel, bit-level rewriting, integer arithmetic over N/Z, finite sweeps by vm_compute) about '
+              'algorithm-faithful hand models of the rendered C, C++ and Python support code; extracted-model vs. implementation '
+              'correspondence on exhaustive small-parameter sweeps; independent big-integer oracle as falsifier',
+    text='47 theorems/examples in coq/theories/Properties/C14.v, each for EVERY offset, length, buffer, declared size and value (no '
+         'bound; preconditions of the code\'s contract as guards). C (both target_endianness renderings): nunavutCopyBits copies '
+         'exactly the addressed bits, leaves every other bit untouched, no out-of-range access (memmove path and bit loop); '
          'SaturateBufferFragmentBitLength; GetBits zero-extends and zero-pads; SetUxx/SetIxx/SetBit report a too-small buffer iff '
-         '8*size < off+len and otherwise write exactly min(len,64) bits; GetU8..U64/GetBit read the field with zeros beyond the '
-         'declared size and len clamped to the width, for any offset; GetI8..I64 sign-extend (sat = 0, 1 and = width included, no '
-         'signed overflow in the C expression); little and any/big renderings are equal. Tie: the extracted model and the headers '
-         'rendered by nnvg from /repo (any/little/big x asserts on/off; gcc and clang ASan/UBSan builds) are run on the same calls '
-         'and compared on return value and full buffer contents with guard bytes; an independent big-integer oracle of the '
-         'property is evaluated on every call as falsifier.',
-    note='Trusted: Coq kernel; the hand models Prims/CPrims.v (validated by the correspondence run, not derived from the source); '
-         'LP64 little-endian host with 8-bit bytes, unsigned int 32 bits, conversions to signed types modulo 2^w (gcc/clang); '
-         'memmove/memset as list splices; extraction (ExtrOcamlBasic only) + ocaml/c14_driver.ml; the C driver '
-         'tools/harness/c14_c_drv.c; gcc 12 / clang 14 sanitizers. Not covered: big-endian hosts; overlapping src/dst in '
-         'nunavutCopyBits (documented UB); NOT YET COVERED in this build stage: half-precision pack/unpack proofs, C++ bitspan, '
-         'Python Serializer/Deserializer (see design_notes/C14.md).',
+         '8*size < off+len, else write exactly min(len,64) bits; GetU8..U64/GetBit read the field with zeros beyond the declared size, '
+         'len clamped, any offset; GetI8..I64 sign-extend (sat 0, 1, = width; no signed overflow in the C expression); little = any/big. '
+         'Half precision (C and C++): round trip and NaN preservation over all 65 536 halves (vm_compute, bound in the statement), unpack '
+         'exact; for ALL binary32 inputs: sign copied, result is the nearest half with ties away from zero (f16_rounding_rule), hence '
+         'faithful, monotone, 0x7C00 exactly from 65520 on, inf/NaN preserved. C++ bitspan: copyTo with its clamp, setZeros zeroes exactly '
+         '[offset, offset+length) (the fixed source; the old under-zeroing witness offset 7 length 2 is in the corpus), '
+         'padAndMoveToAlignment, the three subspans, set/get members proved equal to the C functions. Python: Serializer invariant '
+         '"bits at or after the cursor are zero"; add_unaligned_bytes/unsigned/signed/bit, add_aligned_bytes/unsigned/signed, '
+         'pad_to_alignment append exactly the value\'s bits; Deserializer fetch_(un)aligned_bytes/unsigned/signed/bit return the bits at '
+         'the cursor of the zero-extended buffer. Tie: extracted models vs. the headers/module rendered by nnvg from /repo (C any/little/'
+         'big x asserts on/off, gcc + clang ASan/UBSan; C++14 (17, 20 thorough) x asserts, g++ + clang++ ASan; Python with NumPy) on the '
+         'same calls / operation sequences, return values and full buffers with guard bytes compared; thorough: C vs C++ vs NumPy '
+         'natively on all 2^32 binary32 inputs.',
+    note='Trusted: Coq kernel; the hand models Prims/CPrims.v, CppPrims.v, PyPrims.v, F16.v (validated by the correspondence runs, not '
+         'derived from the source); LP64 little-endian host, 8-bit bytes, unsigned int 32 bits, conversions to signed types modulo 2^w '
+         '(gcc/clang); IEEE-754 binary32 multiplication by 2^-112 / 2^112 in round-to-nearest-even modelled on integers (no FTZ/DAZ); '
+         'memmove/memset as list splices; NumPy uint8 arithmetic, scalar store, slice assignment, packbits/unpackbits(bitorder=little), '
+         'x.view(uint8), struct.pack/unpack "<e|f|d" by their documented semantics; extraction (ExtrOcamlBasic only) + '
+         'ocaml/c14_driver.ml; the drivers tools/harness/c14_*; gcc 12 / clang 14 sanitizers; CPython 3.12 / NumPy 2.5.3. Rounding: C/C++ '
+         'pack ties away from zero, Python (struct) ties to even - both allowed by C14 (nearest or adjacent); the difference is C03\'s '
+         'F-F16-TIE, not a C14 finding. Not covered: big-endian hosts; overlapping src/dst in copy (documented UB); Python '
+         'add_aligned_u8..u64/i8..i64, (un)aligned arrays of bits / of standard primitives, fork_bytes, fetch_aligned_u8..i64 and '
+         'float fetch/add are modelled and tied by correspondence but have no theorem; behaviour of the Python Serializer outside its '
+         'capacity contract (a 1-byte aligned write past the end is silently dropped by NumPy broadcasting - observed, outside the '
+         'documented contract); cetl flavour (cannot be compiled offline).',
     design='§5 C14')
 
 C_VARIANTS = [('any', False), ('any', True), ('little', False), ('little', True), ('big', False), ('big', True)]   # big: thorough tier only
@@ -995,6 +1009,32 @@ def run_shard(job: dict) -> dict:
     return res
 
 
+def native_f16_job(job: dict) -> dict:
+    """no model in the loop: C vs C++ digests of nunavutFloat16Pack/float16Pack over whole ranges, and C vs NumPy astype(float16)"""
+    res = {'ranges': len(job['ranges']), 'values': 0, 'c_vs_cpp_mismatch': [], 'numpy': None}
+    text = ''.join('f16pr %d %d 1\n' % (a, n) for a, n in job['ranges'])
+    outs = {}
+    for name in ('c', 'cpp'):
+        if job.get(name):
+            o, err, rc = _run_exe([job[name]], text)
+            outs[name] = o if rc == 0 and len(o) == len(job['ranges']) else None
+    if outs.get('c') and outs.get('cpp'):
+        for (a, n), x, y in zip(job['ranges'], outs['c'], outs['cpp']):
+            res['values'] += n
+            if x != y:
+                res['c_vs_cpp_mismatch'].append({'start': a, 'count': n, 'c_digest': x, 'cpp_digest': y})
+    if job.get('c') and job.get('numpy_env'):
+        args = [core.PY, os.path.join(HARNESS, 'c14_f16_numpy.py'), job['c'], job['scratch']]
+        for a, n in job['ranges']:
+            args += [str(a), str(n)]
+        o, err, rc = _run_exe(args, '', env=job['numpy_env'])
+        try:
+            res['numpy'] = json.loads(o[-1])
+        except Exception:
+            res['numpy'] = {'error': (err or '')[-300:], 'other': 0, 'values': 0}
+    return res
+
+
 def case_weight(b: dict) -> tuple:
     l = b.get('line', '')
     return (len(l), l)
@@ -1068,6 +1108,29 @@ def main(chk: core.Check, replay: typing.Optional[str] = None) -> int:
         for r in ex.map(run_shard, jobs):
             results.append(r)
 
+    # native sweep of float16 packing (no model): all 2^32 binary32 patterns in the thorough tier, a sample in the quick tier
+    native = {'values_c_vs_cpp': 0, 'c_vs_cpp_mismatch': [], 'numpy_values': 0, 'numpy_equal': 0, 'numpy_tie_differences': 0, 'numpy_nan_pairs': 0,
+              'numpy_other': 0, 'numpy_witnesses': []}
+    c_exe = (targets.get('c_any_noasserts') or {}).get('exe')
+    cpp_exe = (cpp_targets.get('cpp_cpp14_noasserts') or {}).get('exe')
+    if c_exe and not replay:
+        if chk.tier == 'thorough':
+            ranges = [(i << 24, 1 << 24) for i in range(256)]
+        else:
+            ranges = [(0x38000000, 1 << 22), (0x47000000, 1 << 22), (0xB3000000, 1 << 21), (chk.rng.randrange(0, 255) << 24, 1 << 21)]
+        np_env = (py_targets.get('py_support') or {}).get('env')
+        njobs = [{'ranges': ranges[i:i + 8], 'c': c_exe, 'cpp': cpp_exe, 'numpy_env': np_env, 'scratch': scratch} for i in range(0, len(ranges), 8)]
+        with concurrent.futures.ProcessPoolExecutor(max_workers=min(8, len(njobs))) as ex:
+            for r in ex.map(native_f16_job, njobs):
+                native['values_c_vs_cpp'] += r['values']
+                native['c_vs_cpp_mismatch'] += r['c_vs_cpp_mismatch']
+                if r['numpy']:
+                    native['numpy_values'] += r['numpy'].get('values', 0)
+                    native['numpy_equal'] += r['numpy'].get('equal', 0)
+                    native['numpy_tie_differences'] += r['numpy'].get('tie_differences', 0)
+                    native['numpy_nan_pairs'] += r['numpy'].get('nan_pairs', 0)
+                    native['numpy_other'] += r['numpy'].get('other', 0)
+                    native['numpy_witnesses'] += r['numpy'].get('witnesses', [])[:3]
     timing['run_s'] = round(time.time() - t1, 1)
     chk.notes.append('timing: %r' % timing)
     oracle_bad = [b for r in results for b in r['oracle_bad']]
@@ -1103,6 +1166,7 @@ def main(chk: core.Check, replay: typing.Optional[str] = None) -> int:
         'distribution': {'calls': len(lines), 'by_command': kinds, 'by_branch': branches, 'implementation_builds': sorted(all_targets) + sorted(py_targets),
                          'copy_strata_src_mod8_dst_mod8_len_mod8': '%d of 512' % len(strata),
                          'float16_pack_C_vs_struct_e': f16_vs_struct,
+                         'float16_native_sweep_no_model': native,
                          'float16_rounding_rules': 'C/C++ nunavutFloat16Pack: nearest, ties away from zero (proved: f16_rounding_rule); '
                                                    'Python struct/NumPy: nearest, ties to even; both are allowed by C14 (nearest or adjacent)'},
     })
@@ -1113,6 +1177,15 @@ def main(chk: core.Check, replay: typing.Optional[str] = None) -> int:
                 print(json.dumps(b))
         print('replayed %d line(s): %d property failures, %d model disagreements, %d crashes' % (len(lines), len(oracle_bad), len(model_bad), len(crashes)))
 
+    # differences between C and NumPy that are not exact ties: a violation only if the C result is not faithful
+    for w in native['numpy_witnesses']:
+        if 'x' in w and not judge_f16_pack(w['x'], str(w['c'])):
+            oracle_bad.append({'target': 'c_any_noasserts (native sweep)', 'line': 'f16p %d' % w['x'], 'implementation': str(w['c']),
+                               'expected_by_property': describe_f16_pack(w['x'])})
+    if native['c_vs_cpp_mismatch']:
+        model_bad.append({'target': 'cpp_cpp14_noasserts vs c_any_noasserts (native sweep)', 'line': 'f16pr %(start)d %(count)d 1' % native['c_vs_cpp_mismatch'][0],
+                          'model': native['c_vs_cpp_mismatch'][0]['c_digest'], 'implementation': native['c_vs_cpp_mismatch'][0]['cpp_digest'],
+                          'expected_by_property': 'C and C++ carry the same float16Pack: equal digests'})
     impl_crashes = [c for c in crashes if not c['target'].startswith('model')]
     if oracle_bad or impl_crashes:
         cands = sorted(oracle_bad, key=case_weight) or impl_crashes
